@@ -262,7 +262,8 @@ func h2upCase(c *hx.Ctx, method string, frames []string) (hung bool) {
 	c.Emit("C08", fmt.Sprintf("h2up %s %s", method, strings.Join(frames, "+")), r1+" "+r2+" "+same)
 	c.Count("h2up.r1." + strings.SplitN(r1, ":", 2)[0])
 	c.Count("h2up.r2." + strings.SplitN(r2, ":", 2)[0])
-	pool.Close()
+	// on a wedged connection Close itself blocks (the close event wants the connection mutex): never wait for it
+	go pool.Close()
 	return strings.HasPrefix(r1, "hang") || strings.HasPrefix(r2, "hang")
 }
 
